@@ -30,5 +30,9 @@ RULES = [
     ("C05.entry", lambda c, r: __import__("sa.rules.lfht2", fromlist=["x"]).rule_entry(c, r, "C05.entry")),
     ("C05.partition_thread", lambda c, r: __import__("sa.rules.lfht2", fromlist=["x"]).rule_partition_thread(c, r, "C05.partition_thread")),
     ("C05.levels", lambda c, r: __import__("sa.rules.lfht2", fromlist=["x"]).rule_levels(c, r, "C05.levels")),
+    ("C05.gcskel", lambda c, r: __import__("sa.rules.lfht2", fromlist=["x"]).rule_gcskel(c, r, "C05.gcskel")),
+    ("C05.addprev", lambda c, r: __import__("sa.rules.lfht2", fromlist=["x"]).rule_addprev(c, r, "C05.addprev")),
+    ("C05.partloops", lambda c, r: __import__("sa.rules.lfht2", fromlist=["x"]).rule_partloops(c, r, "C05.partloops")),
+    ("C05.createbucket", lambda c, r: __import__("sa.rules.lfht2", fromlist=["x"]).rule_createbucket(c, r, "C05.createbucket")),
 ]
 FLOORS = {}
